@@ -13,6 +13,11 @@ pub struct ScriptedRng {
     bytes: Vec<u8>,
     pos: usize,
 }
+impl ScriptedRng {
+    pub fn new(bytes: Vec<u8>) -> Self {
+        ScriptedRng { bytes, pos: 0 }
+    }
+}
 impl TryRng for ScriptedRng {
     type Error = Infallible;
     fn try_fill_bytes(&mut self, dest: &mut [u8]) -> Result<(), Infallible> {
